@@ -224,9 +224,18 @@ def check_plans(ctx, plans, compare=True, label='gen'):
     plans = list(plans)
     if not plans:
         return
+    CHUNK = 400 if (ctx.quick() and not ctx.searching) else 48000
+    if len(plans) > CHUNK:
+        # bounded pieces: a broken tree fails fast instead of grinding through the whole budget
+        for i in range(0, len(plans), CHUNK):
+            if len(ctx.oracle_failures) >= 20 or (len(ctx.disagreements) >= 20 and not ctx.searching):
+                ctx.note('stopped early after %d failures' % (len(ctx.oracle_failures) + len(ctx.disagreements)))
+                return
+            check_plans(ctx, plans[i:i + CHUNK], compare=compare, label=label)
+        return
     lines = [pc.plan_line(p) for p in plans]
     model = ctx.model(lines) if compare else None
-    if ctx.quick() or len(plans) < 4000:
+    if len(plans) < 4000:
         results = _observe_chunk(plans)
     else:
         n = 64
@@ -242,8 +251,8 @@ def check_plans(ctx, plans, compare=True, label='gen'):
         ctx.count('stream:' + label)
         ctx.count('hooks_called:%s' % (res['nhooks'] if res['nhooks'] < 6 else '6+'))
         ctx.count('requests:%d' % (1 + sum(1 for t in res['j'] if t[0] == 'v' and t[1] != '0' and t.endswith('.0'))))
-        ctx.count('handler:%s/%s' % (re.sub(r'\d+', '', plan['pages'][plan['start']]['handler'][0]),
-                                     re.sub(r'\d+', '', plan['pages'][plan['start']]['handler'][1])))
+        hd = plan['pages'][plan['start']]['handler'] if plan['start'] < len(plan['pages']) else ['notfound', '-']
+        ctx.count('handler:%s/%s' % (re.sub(r'\d+', '', hd[0]), re.sub(r'\d+', '', hd[1])))
         if any(t == 'S500.1' for t in res['j']):
             ctx.count('trapper_500')
         for what, sig in res['fails']:
@@ -327,7 +336,7 @@ def search(ctx, around=None):
     check_plans(ctx, targeted_plans(), compare=False, label='search')
     check_plans(ctx, enum_small(2, ['ok', 'ex', 'he404', 'ir0'], THOROUGH_HANDLERS), compare=False, label='search')
     if not ctx.oracle_failures:
-        plans = [pc.gen_plan(rng, focus=(rng.randrange(8) if i % 2 else None)) for i in range(30000)]
+        plans = [pc.gen_plan(rng, focus=(rng.randrange(8) if i % 2 else None)) for i in range(ctx.budget(12000, 60000))]
         check_plans(ctx, plans, compare=False, label='search')
 
 
